@@ -293,7 +293,7 @@ func candidates(cs *Case) []func(c *Case) {
 	}
 	for _, old := range fnOrder {
 		old := old
-		isCanon := false
+		isCanon := old == "getUser"
 		for _, c := range canon {
 			if c == old {
 				isCanon = true
@@ -327,6 +327,28 @@ func candidates(cs *Case) []func(c *Case) {
 				}
 			})
 			break
+		}
+	}
+	// the prefix-rule family: rename a function to getUser and name it by the prefix pattern <svc>.get
+	for i := range cs.Cfg.Methods {
+		i := i
+		for _, x := range sfs {
+			x := x
+			if x.f == "getUser" || usedFn["getUser"] || x.f == "m0" || x.f == "m1" || x.f == "m2" || x.f == "m3" {
+				continue
+			}
+			add(func(c *Case) {
+				for a := range c.Prog.Files {
+					for b := range c.Prog.Files[a].Services {
+						for k := range c.Prog.Files[a].Services[b].Fns {
+							if c.Prog.Files[a].Services[b].Fns[k].Name == x.f {
+								c.Prog.Files[a].Services[b].Fns[k].Name = "getUser"
+							}
+						}
+					}
+				}
+				c.Cfg.Methods[i] = x.s + ".get"
+			})
 		}
 	}
 	for i, m := range cs.Cfg.Methods {
